@@ -102,6 +102,7 @@ type StatsOut struct {
 	TraceDigest                                                                                                         uint64
 	MapPerms                                                                                                            []uint64
 	PoolGets, PoolDrops, RandDraws, ClockReads, HotYields                                                               uint64
+	Spawned, Leaked, BlockedOps                                                                                         uint64
 }
 
 func (st *Stats) out() StatsOut {
@@ -142,6 +143,7 @@ func (st *Stats) out() StatsOut {
 	o.SiteHits = simrt.SiteHits
 	o.PoolGets, o.PoolDrops, o.RandDraws, o.ClockReads = simrt.ShimCounters()
 	o.HotYields = simrt.HotYields
+	o.Spawned, o.Leaked, o.BlockedOps = simrt.Spawned, simrt.Leaked, simrt.BlockedOps
 	return o
 }
 
